@@ -757,6 +757,16 @@ class RoundTripSuite(Suite):
             cases.append(Case("mprt %s" % spec, kind="mprt"))
             if r >= 0.8:
                 cases.append(Case("cross %d %s" % (cb, spec[2:]), kind="cross"))
+        # deep documents (the round trips are made with a nesting limit of 250): depth 1..240
+        for depth in (1, 2, 9, 10, 11, 60, 127, 128, 129, 200, 240):
+            t = "I7"
+            for lvl in range(depth):
+                t = ("[" + t + "]") if lvl % 2 == 0 else ("{6b:" + t + "}")
+            cases.append(Case("jsonrt %d t:%s" % (cb, t), kind="jsonrt"))
+            cases.append(Case("mprt t:%s" % t, kind="mprt"))
+        # a map / an array with 65536 entries (map 32 / array 32 headers), through MessagePack input; judged on the implementation's outputs only
+        for hdr, item in ((b"\xdf\x00\x01\x00\x00", "a16bc0"), (b"\xdd\x00\x01\x00\x00", "c0")):
+            cases.append(Case("mprt m:" + hdr.hex() + item * 65536, kind="mprt", mline="mpspec -", nocompare=True))
         return cases
 
     @staticmethod
@@ -1611,6 +1621,14 @@ class CopyEqSuite(Suite):
         return h.split(" ")[0][:40]
 
 
+def geo_suffix(cfg):
+    """geometry fields for the slot-level deserializer ops when the build is not the default one"""
+    if not any(k in cfg for k in ("POOL_CAPACITY", "INITIAL_POOL_COUNT", "SLOT_ID_SIZE", "STRING_LENGTH_SIZE")):
+        return ""
+    g = geo_of(cfg)
+    return " %d %d %d %d %d" % (g[0], g[1], g[2], g[3], 2 ** (8 * cfg.get("STRING_LENGTH_SIZE", 2)) - 1)
+
+
 class JsonDocSuite(Suite):
     """slot-level tie of deserializeJson (model AJ/Model/JDD.lean): for texts of every kind (valid, mutated, long strings that make the
     string builder grow, repeated strings and keys that exercise de-duplication and member reuse) into an empty or a used document, without and
@@ -1632,8 +1650,15 @@ class JsonDocSuite(Suite):
             for pre in (0, 1):
                 for f in fails:
                     cases.append(Case("jsondoc %d 10 %d %s %s" % (cb, pre, f, hx(t)), text=t, fail=f))
+        maxlen = 2 ** (8 * self.cfg.get("STRING_LENGTH_SIZE", 2)) - 1
+        # one string used by more values than a narrow reference counter can count, then one user replaced (a repeated key)
+        for N in ((255, 256, 257, 300) if maxlen == 255 or self.cfg.get("SLOT_ID_SIZE", 4) == 1 else ((65535, 65536, 65537) if tier == "thorough" else ())):
+            t = b'{"palette":[' + b",".join([b'{"rgb":0}'] * N) + b'],"mode":"rgb","mode":"hsv","gamma":2.5}'
+            cases.append(Case("jsondoc %d 10 0 - %s" % (cb, hx(t)), text=t, fail="-"))
+            t = b'["rgb",' + b",".join([b'"rgb"'] * N) + b',{"a":"rgb","a":1}]'
+            cases.append(Case("jsondoc %d 10 0 - %s" % (cb, hx(t)), text=t, fail="-"))
         # strings around and beyond the longest storable length: the builder's buffer must be released when its growth is refused
-        for k in (65535, 65536, 70000):
+        for k in (maxlen, maxlen + 1, maxlen + 4465):
             for t in (b'"' + b"s" * k + b'"', b'["a","' + b"s" * k + b'","b"]', b'{"' + b"k" * k + b'":1}', b'{k' + b"k" * k + b':1}'):
                 for f in ("-", "a3", "a12", "a14"):
                     cases.append(Case("jsondoc %d 10 0 %s %s" % (cb, f, hx(t)), text=t, fail=f))
@@ -1650,6 +1675,9 @@ class JsonDocSuite(Suite):
                 t = b"[" + b",".join(rng.choice([b'"%s"' % rng.choice(pool), b'{"%s":"%s"}' % (rng.choice(pool), rng.choice(pool)), b"1"]) for _ in range(rng.choice([2, 5, 9]))) + b"]"
             f = rng.choice(fails) if rng.random() < 0.6 else "-"
             cases.append(Case("jsondoc %d %d %d %s %s" % (cb, rng.choice([10, 10, 3, 50]), rng.choice([0, 0, 1]), f, hx(t)), text=t, fail=f))
+        sfx = geo_suffix(self.cfg)
+        for c in cases:
+            c.line += sfx
         return cases
 
     def oracle(self, case, h):
@@ -1703,6 +1731,9 @@ class MpDocSuite(JsonDocSuite):
                 data = bytes(b)
             f = rng.choice(fails) if rng.random() < 0.6 else "-"
             cases.append(Case("mpdoc %d %d %s %s" % (rng.choice([10, 10, 3, 50]), rng.choice([0, 0, 1]), f, hx(data)), text=data, fail=f))
+        sfx = geo_suffix(self.cfg)
+        for c in cases:
+            c.line += sfx
         return cases
 
 # ================================================================================================ C16: streams
@@ -2618,6 +2649,26 @@ class DeserShareSuite(HistSuite):
                         cases += [Case(o, exp=None) for o in ops]
         return cases
 
+
+class FlagTravelSuite(HistSuite):
+    """C05: the overflowed() flag belongs to the document's content: after a failed operation it travels with the content through swap and
+    move-assignment, a copy of a flagged document is a fresh document, and clear() resets it. Static histories compared with the model."""
+    name = "flagtravel"
+
+    def generate(self, rng, tier):
+        geo = geo_of(self.cfg)
+        cases = []
+        for fk in (1, 2, 3):
+            for filler in (0, 2, 7):
+                for second in ("swapdoc 0 1", "swapdoc 1 0", "copydoc 1 0", "copydoc 0 1", "swapdoc 0 0"):
+                    ops = ["reset", "geo %d %d %d %d" % geo[:4], "root 0 0", "toarr 1 0", "root 2 1", "toobj 3 2", "setm 3 6b i 5"]
+                    ops += ["add 1 i %d" % i for i in range(filler)]
+                    ops += ["failat 0 %d" % fk, "add 1 sc 68656c6c6f20776f726c64", "add 1 d 3fb999999999999a", "add 1 sc 7878", "nofail 0", "obs 0 1 2 3",
+                            second, "obs", "root 4 0", "root 5 1", "add 4 sc 6162", "setm 5 7a sc 6364", "obs 4 5", "copydoc 2 0", "copydoc 2 1", "obs", "cleardoc 0", "cleardoc 1", "root 4 0", "add 4 sc 6162", "obs 4",
+                            "cleardoc 0", "cleardoc 1", "cleardoc 2", "ledger"]
+                    cases += [Case(o, exp=None) for o in ops]
+        return cases
+
 class LimitSuite(HistSuite):
     """C19: histories that sit at, one below and one above the slot limit (1-byte slot ids: 255 slots)"""
     name = "limit"
@@ -2657,8 +2708,24 @@ class LimitSuite(HistSuite):
             ops += ["cleardoc 0", "ledger"]
             for o in ops:
                 cases.append(Case(o, exp=None, limit=limit))
-        cases += self.refcount_cases(geo)
+        cases += self.refcount_cases(geo) + self.strlimit_cases(geo) + self.growfail_cases(geo)
         return cases
+
+    def growfail_cases(self, geo):
+        """every allocator call of a growing document fails once (pool blocks, the first and the later growths of the pool table): the failing
+        add() reports it, and the document can still be read, extended, cleared and reused afterwards"""
+        if geo[0] * geo[1] > 40:
+            return []
+        E = []
+        n = 8 * geo[0] * geo[1] + 6
+        for k in range(1, 16):
+            ops = ["reset", "geo %d %d %d %d" % geo[:4], "root 0 0", "toarr 1 0", "failat 0 %d" % k]
+            ops += ["add 1 i %d" % i for i in range(n)]
+            ops += ["obs 0 1", "nofail 0", "add 1 i 777", "add 1 sc 6162", "obs 0 1", "hser 0", "remi 1 0", "obs 0 1", "cleardoc 0", "root 0 0", "toarr 1 0"]
+            ops += ["add 1 i %d" % i for i in range(n)]
+            ops += ["obs 0 1", "cleardoc 0", "ledger"]
+            E += [Case(o, exp=None, limit=10 ** 9) for o in ops]
+        return E
 
     def strlimit_cases(self, geo):
         """strings of exactly the longest storable length and one byte more (STRING_LENGTH_SIZE): the longer one must fail cleanly -
